@@ -27,7 +27,7 @@ import (
 type legSpec struct {
 	Ch      int    // 0..3: channel the leg leaves through
 	Retries uint32 // metadata.retries
-	Bad     string // "", "channel" (unknown channel), "port" (a port without transfer channels), "timeout" (0s)
+	Bad     string // "": fine. Failing before any coin moves: "channel" (unknown channel), "port" (a port without transfer channels). Failing after the escrow / burn: "timeout" (0s: already elapsed), "blank" (receiver " " passes the memo validation, not the packet data validation), "closed" (a closed channel)
 }
 
 type pktSpec struct {
@@ -67,8 +67,12 @@ type history struct {
 func chName(i int) string { return fmt.Sprintf("channel-%d", i) }
 
 func (e *env) fwdJSON(l *legSpec) string {
-	ch, prt, to := chName(l.Ch), port, "600s"
+	ch, prt, to, rcv := chName(l.Ch), port, "600s", e.far.String()
 	switch l.Bad {
+	case "blank":
+		rcv = " "
+	case "closed":
+		ch = chanE
 	case "channel":
 		ch = "channel-9"
 	case "port":
@@ -76,7 +80,7 @@ func (e *env) fwdJSON(l *legSpec) string {
 	case "timeout":
 		to = "0s"
 	}
-	return fmt.Sprintf(`{"receiver":"%s","port":"%s","channel":"%s","timeout":"%s","retries":%d}`, e.far.String(), prt, ch, to, l.Retries)
+	return fmt.Sprintf(`{"receiver":"%s","port":"%s","channel":"%s","timeout":"%s","retries":%d}`, rcv, prt, ch, to, l.Retries)
 }
 
 // routeJSON renders the route of the memo: a single pool, a parallel split over two or three pools
@@ -232,6 +236,10 @@ func chNum(ch string) int64 {
 		return 2
 	case chanD:
 		return 3
+	case chanE:
+		return 4
+	case chanF:
+		return 5
 	}
 	return 99
 }
@@ -411,9 +419,9 @@ func (r *runner) book() string {
 		}
 		outc = append(outc, fmt.Sprintf("(%d, %d)", oc[0], oc[1]))
 	}
-	return fmt.Sprintf("{| b_live := %s; b_recv := [%s; %s]; b_swapped := [%s; %s]; b_sent := [%s; %s]; b_nacks := %s; b_outcome := %s |}",
+	return fmt.Sprintf("{| b_live := %s; b_recv := [%s; %s]; b_swapped := [%s; %s]; b_sent := [%s; %s]; b_nacks := %s; b_outcome := %s; b_bank := %s |}",
 		emit.List(live), emit.Z(r.recvIn), emit.Z(r.recvOut), emit.Z(r.swIn), emit.Z(r.swOut), emit.Z(r.sentIn), emit.Z(r.sentOut),
-		emit.List(nacks), emit.List(outc))
+		emit.List(nacks), emit.List(outc), emit.List(r.e.bankTotals()))
 }
 
 func (r *runner) record(event string, class int) {
@@ -763,6 +771,7 @@ func (e *env) runHistory(h history) (term string, info map[string]any, r *runner
 		e.pad(cy, n)
 	}
 	init := r.observe()
+	bank0 := e.bankTotals()
 	for _, o := range h.Ops {
 		if o.Leg < 0 {
 			r.doRecv(o.Pkt)
@@ -831,8 +840,8 @@ func (e *env) runHistory(h history) (term string, info map[string]any, r *runner
 	for _, i := range r.idxs {
 		it = append(it, idxTerm(i))
 	}
-	term = fmt.Sprintf("{| h_cfg := %s; h_rcvs := [10; 11; 12]; h_keys := %s; h_idxs := %s; h_init := %s; h_steps := %s; h_final := %s |}",
-		cfgTerm(wired), emit.List(kt), emit.List(it), viewTerm(init, keys, r.idxs), emit.List(steps), emit.Bool(final))
+	term = fmt.Sprintf("{| h_cfg := %s; h_rcvs := [10; 11; 12]; h_keys := %s; h_idxs := %s; h_init := %s; h_bank0 := %s; h_steps := %s; h_final := %s |}",
+		cfgTerm(wired), emit.List(kt), emit.List(it), viewTerm(init, keys, r.idxs), emit.List(bank0), emit.List(steps), emit.Bool(final))
 	info = map[string]any{"name": h.Name, "wired_by_harness": h.Wired, "wired_by_app": e.nativeFn != nil, "packets": h.Pkts, "ops": h.Ops,
 		"drain": h.Drain, "drain_kinds": h.DrainKinds, "align": h.Align, "trace": r.trace}
 	var acc []bool
